@@ -51,6 +51,7 @@ func symSuffix(label string, n int) string {
 // file, test name and options; independent of helper frames and of -trimpath.
 func H_C11_location() {
 	vxrt.FrameFile("/pkg/x_test.go")
+	vxrt.Chdir()
 	trim := vxrt.Bool("trimpath")
 	vxrt.Trimpath(trim)
 	n := vxrt.Param("n", 2)
@@ -58,7 +59,16 @@ func H_C11_location() {
 
 	var opts []func(*Config)
 	dirOpt := "__snapshots__"
-	switch vxrt.Choice("dir", 4) {
+	switch vxrt.Choice("dir", 7) {
+	case 4:
+		dirOpt = "."
+		opts = append(opts, Dir(dirOpt))
+	case 5:
+		dirOpt = "./d" + symSuffix("dir", n)
+		opts = append(opts, Dir(dirOpt))
+	case 6:
+		dirOpt = "../d" + symSuffix("dir", n)
+		opts = append(opts, Dir(dirOpt))
 	case 1:
 		dirOpt = "snaps" + symSuffix("dir", n)
 		opts = append(opts, Dir(dirOpt))
@@ -93,11 +103,14 @@ func H_C11_location() {
 	if api == 2 && cc.extension == "" {
 		cc.extension = ".json"
 	}
-	helpers := vxrt.Choice("helper-frames", 3)
+	helpers := vxrt.Choice("helper-frames", 4)
 	var got string
 	switch helpers {
 	case 0:
 		got, _ = h11Exported(&cc, name, standalone)
+	case 3:
+		// many frames of a helper in a non-test file of another directory
+		vxrt.Deep(vxrt.Param("deep", 40), func() { got, _ = h11Exported(&cc, name, standalone) })
 	default:
 		got, _ = h11Helper1(&cc, name, standalone, helpers)
 	}
